@@ -299,7 +299,19 @@ class ModelMixin:
     def bi_list(self, args, kwargs, st, line):
         if not args:
             return [ok(st.alloc(HObj('list', items=[])), st)]
-        seq = self.concrete_iterable(args[0], st)
+        a0 = args[0]
+        if isinstance(a0, tuple) and len(a0) == 3 and isinstance(a0[0], str) and a0[0] == 'mapiter':
+            # list(executor.map(fn, iterable)): fn is applied to every element (the calls themselves are abstracted: fn is
+            # under its own contract); the first failing call's exception is raised here, else a list of the results
+            out = []
+            s2 = st.fork()
+            exc = ExcV('Exception', (), tag=fresh_name('map_exc'))
+            s2.trace.append(Event('ext', 'legacy_executor.map', None, (a0[1], a0[2]), {}, None, line, s2.held, extra={'raised': exc}))
+            out.append(rs(exc, s2))
+            st.trace.append(Event('ext', 'legacy_executor.map', None, (a0[1], a0[2]), {}, None, line, st.held))
+            out.append(ok(Opaque(fresh_name('map_results'), kind='list'), st))
+            return out
+        seq = self.concrete_iterable(a0, st)
         if seq is None:
             raise EngineError('list() of symbolic iterable')
         return [ok(st.alloc(HObj('list', items=list(seq))), st)]
